@@ -49,7 +49,7 @@ def _tol(S, c, der):
     if der:
         spans = [float(S.T[i + 1] - S.T[i]) for i in range(len(S.T) - 1) if S.T[i + 1] > S.T[i]]
         scale = S.d / min(spans)
-    return 64 * EPS * (S.d + 1) * max(1.0, float(np.sum(np.abs(c)))) * scale
+    return 64 * EPS * (S.d + 1) * max(1e-300, float(np.sum(np.abs(c)))) * scale          # relative to the coefficients
 
 
 def _check_1d(desc, tier, V, st):
@@ -79,6 +79,7 @@ def _check_1d(desc, tier, V, st):
     vecs = [('e%d' % j, np.eye(nc)[j]) for j in range(nc)]
     vecs.append(('ones', np.ones(nc)))
     vecs.append(('dense', np.array([((7 * j * j + 3 * j) % 11) - 5.0 for j in range(nc)])))
+    vecs.append(('tiny', 1e-11 * np.array([((7 * j * j + 3 * j) % 11) - 5.0 for j in range(nc)])))      # evaluation is linear in the coefficients
 
     def agree(got, c, der):
         R, RL = ref[der]
